@@ -6,6 +6,7 @@ import VerdeModel.Model.Coords
 import VerdeModel.Model.Blocks
 import VerdeModel.Model.Windows
 import VerdeModel.Model.Grid
+import VerdeModel.Model.CV
 namespace Verde
 open Val
 
@@ -163,7 +164,45 @@ def opsGrid (op : String) (a : List Val) : Option Val :=
       pure (toVal [m.1, m.2])
   | _ => none
 
-def dispatchers : List (String → List Val → Option Val) := [opsCoords, opsBlocks, opsWindows, opsGrid]
+def cvLabels (a : List Val) : Option (Except Err (List Nat)) := do
+  let es ← argAt (List Rat) a 0
+  let ns ← argAt (List Rat) a 1
+  let b : BlockSpec := ⟨none, ← argAt (Option (Nat × Nat)) a 2, ← argAt (Option (List Rat)) a 3, .spacing⟩
+  if b.shape.isNone && b.spacing.isNone then pure (Except.error Err.valueError)
+  else pure ((blockSplit es ns b).map (·.2))
+
+def withTrain (n : Nat) (tests : List (List Nat)) : List (List Nat × List Nat) :=
+  tests.map fun t => (complement n t, t)
+
+def opsCV (op : String) (a : List Val) : Option Val :=
+  match op with
+  | "partition" => do
+      pure (toVal (partitionBySum (← argAt (List Nat) a 0) (← argAt Nat a 1)))
+  | "kfold" => do
+      let labels ← cvLabels a
+      let spec : KFoldSpec := ⟨← argAt Nat a 4, ← argAt Bool a 5, ← argAt (Option (List Nat)) a 6⟩
+      let r : Except Err (Bool × List (List Nat × List Nat)) := do
+        if spec.nSplits < 2 then Except.error Err.valueError
+        let ls ← labels
+        let (fb, tests) ← blockKFoldTests ls spec
+        pure (fb, withTrain ls.length tests)
+      pure (toVal r)
+  | "shuffle" => do
+      let labels ← cvLabels a
+      let nSplits ← argAt Nat a 4
+      let balancing ← argAt Nat a 5
+      let cands? ← argAt (Option (List (List Nat × List Nat))) a 6
+      let r : Except Err (List (List Nat × List Nat)) := do
+        if balancing < 1 then Except.error Err.valueError
+        let ls ← labels
+        -- `none`: scikit-learn's ShuffleSplit rejected test_size/train_size for this number of blocks (ValueError)
+        let cands ← match cands? with | some c => pure c | none => Except.error Err.valueError
+        let tests ← blockShuffleTests ls nSplits balancing cands
+        pure (withTrain ls.length tests)
+      pure (toVal r)
+  | _ => none
+
+def dispatchers : List (String → List Val → Option Val) := [opsCoords, opsBlocks, opsWindows, opsGrid, opsCV]
 
 def runLine (line : String) : String :=
   match Val.parseLine line with
